@@ -427,8 +427,67 @@ def declare(config, st):
             config.add_subscriber(sub, _P['NewRequest'])
     elif k == 'tween':
         config.add_tween('harness.c08.tweens.tw_' + st['name'])
+    elif k == 'raw':
+        RAW[st['call']][1](config)
     else:
         raise ValueError('unknown statement kind %r' % k)
+
+
+# directives outside the generator's vocabulary, exercised once each by the census case of the corpus so that
+# their rows of the declared table are monitored too: name -> (action sites in creation order, call)
+def _raw_table():
+    from pyramid.response import Response
+    from pyramid.router import default_execution_policy
+    from pyramid.csrf import CookieCSRFStoragePolicy
+    from pyramid.traversal import ResourceTreeTraverser, ResourceURL
+    from pyramid.authentication import AuthTktAuthenticationPolicy
+    from pyramid.authorization import ACLAuthorizationPolicy
+
+    class Mapper:
+        def __init__(self, **kw):
+            pass
+
+        def __call__(self, view):
+            return view
+
+    return {
+        'set_view_mapper': (['set_view_mapper#0'], lambda c: c.set_view_mapper(Mapper)),
+        'add_accept_view_order': (['add_accept_view_order#0'], lambda c: c.add_accept_view_order('text/csv')),
+        'set_response_factory': (['set_response_factory#0'], lambda c: c.set_response_factory(lambda r: Response())),
+        'set_execution_policy': (['set_execution_policy#0'], lambda c: c.set_execution_policy(default_execution_policy)),
+        'set_locale_negotiator': (['set_locale_negotiator#0'], lambda c: c.set_locale_negotiator(lambda r: 'en')),
+        'add_translation_dirs': (['add_translation_dirs#0'], lambda c: c.add_translation_dirs(STATIC_DIR)),
+        'set_authentication_policy': (['set_authentication_policy#0'],
+                                      lambda c: c.set_authentication_policy(AuthTktAuthenticationPolicy('s3cret'))),
+        'set_authorization_policy': (['set_authorization_policy#0', 'set_authorization_policy#1'],
+                                     lambda c: c.set_authorization_policy(ACLAuthorizationPolicy())),
+        'add_permission': (['add_permission#0'], lambda c: c.add_permission('perm_x')),
+        'set_csrf_storage_policy': (['set_csrf_storage_policy#0'],
+                                    lambda c: c.set_csrf_storage_policy(CookieCSRFStoragePolicy())),
+        'add_response_adapter': (['add_response_adapter#0'], lambda c: c.add_response_adapter(lambda x: Response('a'), CtxA)),
+        'add_traverser': (['add_traverser#0'], lambda c: c.add_traverser(ResourceTreeTraverser, CtxB)),
+        'add_resource_url_adapter': (['add_resource_url_adapter#0'], lambda c: c.add_resource_url_adapter(ResourceURL, CtxB)),
+        'add_request_method_placeholder': (['add_request_method#0'], lambda c: c.add_request_method(None, name='ext9')),
+    }
+
+
+class _Raw(dict):
+    def __missing__(self, k):
+        self.update(_raw_table())
+        return dict.__getitem__(self, k)
+
+
+RAW = _Raw()
+RAW_SITES = {
+    'set_view_mapper': ['set_view_mapper#0'], 'add_accept_view_order': ['add_accept_view_order#0'],
+    'set_response_factory': ['set_response_factory#0'], 'set_execution_policy': ['set_execution_policy#0'],
+    'set_locale_negotiator': ['set_locale_negotiator#0'], 'add_translation_dirs': ['add_translation_dirs#0'],
+    'set_authentication_policy': ['set_authentication_policy#0'],
+    'set_authorization_policy': ['set_authorization_policy#0', 'set_authorization_policy#1'],
+    'add_permission': ['add_permission#0'], 'set_csrf_storage_policy': ['set_csrf_storage_policy#0'],
+    'add_response_adapter': ['add_response_adapter#0'], 'add_traverser': ['add_traverser#0'],
+    'add_resource_url_adapter': ['add_resource_url_adapter#0'], 'add_request_method_placeholder': ['add_request_method#0'],
+}
 
 
 # ------------------------------------------------------------------ one variant
@@ -578,17 +637,22 @@ def registrations(b, stmts):
     q = lambda iface, name='': Registry.queryUtility(reg, iface, name)
     by_kind = {}
     route_of = {}
+    mains = [st for st in stmts.values() if 'shadow_of' not in st]
+    pattern_of = {}
     for st in stmts.values():
         by_kind.setdefault(st['k'], []).append(st['id'])
+        if st['k'] == 'route':
+            pattern_of[(st['name'], st['pattern'])] = st['id']
+    for st in mains:
         if st['k'] == 'route':
             route_of[st['name']] = st['id']
         if st['k'] == 'static':
             route_of['__%s/' % st['name']] = st['id']
-    custom = {(st['k'], st['name']): st['id'] for st in stmts.values() if st['k'] in ('vpred', 'rpred', 'deriver')}
+    custom = {(st['k'], st['name']): st['id'] for st in mains if st['k'] in ('vpred', 'rpred', 'deriver')}
     out = {}
     mapper = q(I.IRoutesMapper)
     if mapper is not None:
-        rs = [route_of.get(r.name, -1) for r in mapper.get_routes(include_static=True)]
+        rs = [pattern_of.get((r.name, r.pattern), route_of.get(r.name, -1)) for r in mapper.get_routes(include_static=True)]
         if rs:
             out['routes'] = rs
     for iface, key in ((I.ISecurityPolicy, 'policy'), (I.IRootFactory, 'rootf'), (I.ISessionFactory, 'sessf'),
@@ -610,13 +674,14 @@ def registrations(b, stmts):
     ex = q(I.IRequestExtensions)
     if ex is not None:
         names = list(ex.methods) + list(ex.descriptors)
-        for st in stmts.values():
+        for st in mains:
             if st['k'] == 'reqm' and st['name'] in names:
                 out['reqext:%s' % st['name']] = [st['id']]
     tw = q(I.ITweens)
     if tw is not None:
-        tws = {('tw_' + st['name']): st['id'] for st in stmts.values() if st['k'] == 'tween'}
-        l = [tws.get(n.rsplit('.', 1)[-1], -1) for n, _ in tw.implicit() if n.startswith('harness.c08')]
+        tws = {('tw_' + st['name']): st['id'] for st in mains if st['k'] == 'tween'}
+        # unconstrained tweens stack newest-outermost: list them in registration order
+        l = list(reversed([tws.get(n.rsplit('.', 1)[-1], -1) for n, _ in tw.implicit() if n.startswith('harness.c08')]))
         if l:
             out['tweens'] = l
     for typ, key, kind in (('view', 'preds:view', 'vpred'), ('route', 'preds:route', 'rpred')):
